@@ -457,6 +457,16 @@ class Check:
             if xbad:
                 path = self.write_replay(f"{self.prop}_extraction.json", dict(property=self.prop, kind="extraction-mismatch", log=xlog))
                 out.append(f"VIOLATION property={self.prop} replay={path} no-failing-input-found")
+        # thorough tier: independent re-check of the compiled theorem file and everything it depends on
+        self.coqchk = None
+        if self.tier == "thorough" and props["ok"]:
+            with BuildLock():
+                rc, cout = sh(["timeout", "1500", "coqchk", "-silent", "-o", "-R", ".", "SR", f"SR.Props.{self.prop}"], cwd=COQ, timeout=1600)
+            summary = cout[cout.find("CONTEXT SUMMARY"):] if "CONTEXT SUMMARY" in cout else cout[-1500:]
+            self.coqchk = dict(exit=rc, summary=" ".join(summary.split())[:1500])
+            if rc != 0 or "Axioms: <none>" not in " ".join(summary.split()):
+                path = self.write_replay(f"{self.prop}_coqchk.json", dict(property=self.prop, kind="coqchk", output=cout[-3000:]))
+                out.append(f"VIOLATION property={self.prop} replay={path} no-failing-input-found")
         self.write_evidence(props, proof_broken, xn, len([o for o in out if o.startswith("VIOLATION")]))
         for o in out:
             print(o)
@@ -473,6 +483,7 @@ class Check:
             "Print Assumptions: " + ("; ".join(dict.fromkeys(props["assumptions"])) or "(theorem file did not compile)"),
             "extraction with ExtrOcamlBasic only (bool, option, unit, list, prod, sumbool, sumor, andb, orb); Z/N/positive/nat kept as extracted inductives; OCaml 4.13.1; coq/Extract/driver.ml",
             f"vm_compute cross-check of {xn} sampled cases against the extracted judge",
+            ("coqchk -o: " + json.dumps(self.coqchk)) if getattr(self, "coqchk", None) else "coqchk -o runs in the thorough tier only",
             "translator harness/translate.py: " + json.dumps(self.gen_notes),
             "harness: generators and canonicalisation in harness/" + self.prop.lower() + ".py",
         ] + list(getattr(mod, "TRUSTED", []))
